@@ -460,6 +460,12 @@ func observeOp(b Store, op Op) (Obs, error) {
 			return o, err
 		}
 		o.OK = ok
+	case "updateKey": // key-only update: the value is neither fetched nor changed
+		ok, err := b.UpdateKey(Ctx, op.K)
+		if err != nil {
+			return o, err
+		}
+		o.OK = ok
 	case "count":
 		o.OK = true
 		o.Read = fmt.Sprint(b.Count())
